@@ -1,8 +1,35 @@
 import SLModel.Drv.Util
+import SLModel.Core.Integrity
+import SLModel.Core.Crc32
 open Lean
 namespace SL.Drv.C17
+open SL.Drv SL.Wal SL.Integrity
 
-/-- stub: no model operations for C17 yet -/
-def handle (_req : Json) : Except String Json := .error "C17: not implemented"
+def crc : Bytes → Bytes := SL.Crc32.crcLE
+
+def bytesOfHex (s : String) : Except String Bytes := do
+  let b ← hexToBytes s
+  return b.map (·.toNat)
+
+/-- `{"op":"segment","files":[{"name":…,"orig":hex,"cur":hex|null}]}` → does `openSegment` accept
+the current files, given manifest checksums computed from the original ones (parsers are
+assumed to accept: `parse := true`, so `true` means "the checksums do not stop it") -/
+def handle (req : Json) : Except String Json := do
+  let op ← getStr req "op"
+  match op with
+  | "segment" =>
+    let fs ← getArr req "files"
+    let mut views : List FileView := []
+    let mut sums : List (String × Bytes) := []
+    for f in fs.toList do
+      let name ← getStr f "name"
+      let orig ← bytesOfHex (← getStr f "orig")
+      sums := (name, crc orig) :: sums
+      match getOpt f "cur" with
+      | none => views := ⟨name, none⟩ :: views
+      | some c => views := ⟨name, some (← bytesOfHex (← c.getStr?))⟩ :: views
+    let ok := openSegment crc (fun n => sums.lookup n) (fun _ _ => true) views
+    return Json.mkObj [("opens", ok)]
+  | _ => throw s!"C17: unknown op {op}"
 
 end SL.Drv.C17
